@@ -47,6 +47,8 @@ def native_eigvec(n, kind, dtname, method, seed):
     lam = torch.rand(n, generator=g, dtype=torch.float64) + 0.1
     if kind == "repeated" and n > 2:
         lam[: n // 2] = lam[0]
+    if kind == "singular" and n > 1:
+        lam[: max(1, n // 3)] = 0.0  # rank-deficient PSD (in the property's domain)
     lam = torch.sort(lam).values
     A = ((Qm * lam.unsqueeze(0)) @ Qm.T)
     A = ((A + A.T) / 2).to(dt)
@@ -92,6 +94,14 @@ def native_eigvec(n, kind, dtname, method, seed):
     P1, P2 = Q @ Q.T, X @ X.T
     if float((P1 - P2).abs().max()) > tol * 10:
         return "QR: result does not span the orthogonal-iteration update of the estimate"
+    if kind == "singular":
+        # fixed-point clause on a singular matrix with the EXACT eigenbasis it was built from (known finding F12)
+        Qf = M.matrix_eigenvectors(A, eigenvectors_estimate=Qm.to(dt), eigenvector_computation_config=QRConfig(max_iterations=1, tolerance=0.0)).double()
+        nz = lam > 0
+        dev = torch.minimum((Qf - Qm).abs().max(dim=0).values, (Qf + Qm).abs().max(dim=0).values)[nz].max()
+        if float(dev) > 1e-3:
+            return f"F12: QR: an exact eigenbasis of a SINGULAR matrix is not a fixed point up to column signs (deviation {float(dev):.2e} on the eigenvectors of the non-zero eigenvalues)"
+        return None
     if kind != "repeated":
         exact = e.to(dt)
         Qf = M.matrix_eigenvectors(A, eigenvectors_estimate=exact, eigenvector_computation_config=QRConfig(max_iterations=1, tolerance=0.0)).double()
@@ -106,16 +116,17 @@ def bounded(tier, seed):
     import itertools
     sizes = (1, 2, 3, 8, 16) if tier == "quick" else (1, 2, 3, 5, 8, 16, 32, 64)
     evals, viol, distinct = 0, [], set()
-    for n, kind, dtn, method in itertools.product(sizes, ("distinct", "repeated"), ("f32", "f64"), ("eigh", "qr", "flags")):
+    for n, kind, dtn, method in itertools.product(sizes, ("distinct", "repeated", "singular"), ("f32", "f64"), ("eigh", "qr", "flags")):
         for k in range(2 if tier == "quick" else 6):
             bad = native_eigvec(n, kind, dtn, method, seed * 100 + k)
             evals += 1
             distinct.add((n, kind, dtn, method, k))
-            if bad and len(viol) < 5:
+            is_known = bool(bad) and bad.startswith("F12:") and kind == "singular"
+            if bad and len([v for v in viol if bool(v.get("known")) == is_known]) < (2 if is_known else 5):
                 viol.append(dict(ob=f"bounded/eigenvectors[{n},{kind},{dtn},{method}]", func="matrix_eigenvectors", input=dict(n=n, kind=kind, dtype=dtn, method=method), text=bad, detail=bad,
-                                 replay=dict(kind="eigvec_native", n=n, spectrum=kind, dt=dtn, method=method, seed=seed * 100 + k)))
+                                 replay=dict(kind="eigvec_native", n=n, spectrum=kind, dt=dtn, method=method, seed=seed * 100 + k), known="F12" if is_known else None))
     return dict(evaluations=evals, distinct_nontrivial=len(distinct),
-                rule="symmetric PSD matrices with distinct / repeated eigenvalues, sizes x dtypes: eigh method orthonormal / diagonalising / ascending; QR: zero-estimate fallback, orthonormal, Rayleigh ordering, span of the orthogonal-iteration update, exact eigenbasis fixed up to signs; flags: identity / one; distinct = distinct parameter tuples",
+                rule="symmetric PSD matrices with distinct / repeated eigenvalues and singular (rank-deficient) ones, sizes x dtypes: eigh method orthonormal / diagonalising / ascending; QR: zero-estimate fallback, orthonormal, Rayleigh ordering, span of the orthogonal-iteration update, exact eigenbasis fixed up to signs; flags: identity / one; distinct = distinct parameter tuples",
                 samples=[dict(n=8, kind="repeated", dtype="f32", method="qr")], bound=f"sizes {sizes}", violations=viol)
 
 
